@@ -444,6 +444,55 @@ has unique keys: the `Wf` hypothesis of the theorems is an invariant of the `*In
 theorem dict_keys_unique_invariant {α : Type} [Named α] (ops : List (DictOp α)) : WfDict (dictRun ops []) :=
   wf_dictRun ops [] wf_nil
 
+/-- `hasKey` reads the key list only -/
+theorem hasKey_of_names {α : Type} [Named α] (b b' : List α) (h : b.map name = b'.map name) (k : String) :
+    hasKey b k = hasKey b' k := by
+  have e : ∀ d : List α, hasKey d k = (d.map name).any (fun n => n == k) := by
+    intro d; simp [hasKey, List.any_map, Function.comp_def]
+  rw [e b, e b', h]
+
+/-- `_dict_diff` / `_dict_common` look at the KEYS of the other dictionary and at nothing else: putting any other slivers under the
+same keys on the other side (a fresh `node_id` after remove + add under the old name, other properties, other children) changes
+neither which children are removed, nor which are common, nor the names of the added ones -/
+theorem dict_select_by_key_only {α : Type} [Named α] (a b b' : List α) (h : b.map name = b'.map name) :
+    dictRemoved a b = dictRemoved a b' ∧ dictCommon a b = dictCommon a b' ∧
+    (dictAdded a b).map name = (dictAdded a b').map name := by
+  refine ⟨?_, ?_, ?_⟩
+  · simp only [dictRemoved]; congr 1; funext x; rw [hasKey_of_names b b' h]
+  · simp only [dictCommon]; congr 1; funext x; rw [hasKey_of_names b b' h]
+  · have e : ∀ d : List α, (dictAdded a d).map name = (d.map name).filter (fun k => !hasKey a k) := by
+      intro d; simp [dictAdded, List.filter_map, Function.comp_def]
+    rw [e b, e b', h]
+
+/-- no child drops out of the comparison: every child of the old side is removed or common (exactly one of the two), every child of
+the new side is added or its key is one of the common keys (exactly one of the two) - whatever is stored under the keys -/
+theorem dict_partition_by_key {α : Type} [Named α] (a b : List α) :
+    (∀ x ∈ a, (x ∈ dictRemoved a b ∧ x ∉ dictCommon a b) ∨ (x ∈ dictCommon a b ∧ x ∉ dictRemoved a b)) ∧
+    (∀ y ∈ b, (y ∈ dictAdded a b ∧ hasKey (dictCommon a b) (name y) = false) ∨
+              (y ∉ dictAdded a b ∧ hasKey (dictCommon a b) (name y) = true)) := by
+  constructor
+  · intro x hx
+    simp only [mem_dictRemoved, mem_dictCommon]
+    cases hk : hasKey b (name x) <;> simp [hx]
+  · intro y hy
+    simp only [mem_dictAdded]
+    cases hk : hasKey a (name y)
+    · left
+      refine ⟨⟨hy, rfl⟩, ?_⟩
+      rw [hasKey_false_iff]
+      intro x hx hn
+      rw [mem_dictCommon] at hx
+      exact (hasKey_false_iff a (name y)).1 hk x hx.1 hn
+    · right
+      refine ⟨by simp, ?_⟩
+      obtain ⟨x, hx, hn⟩ := (hasKey_iff a (name y)).1 hk
+      rw [hasKey_iff]
+      exact ⟨x, (mem_dictCommon a b x).2 ⟨hx, by rw [hn]; exact hasKey_self hy⟩, hn⟩
+
+-- a child re-created under its old name is common whatever else differs (names stand for slivers here: the key is all that is read)
+example : dictCommon (α := Leaf Nat) [⟨"p1.1", {labels := some 10}⟩] [⟨"p1.1", {labels := some 11}⟩] = [⟨"p1.1", {labels := some 10}⟩] ∧
+    dictAdded (α := Leaf Nat) [⟨"p1.1", {labels := some 10}⟩] [⟨"p1.1", {labels := some 11}⟩] = [] := by decide
+
 omit [DecidableEq V] in
 /-- two nodes in which every SmartNIC has a network service and that agree on which components are SmartNICs can be compared
 in both directions without raising -/
